@@ -36,6 +36,18 @@ SCRIPTED = [
         "reset 0 0 0 0 htp", "login 0 1", "pushstart 0:2 3", "approve 0", "tick", "tick", "tick", "tick", "poll 0:2 3",
         "sweep", "poll 0:2 3"]),
     # ---- histories every tree must survive
+    ("client-certificate-with-somebody-elses-cookie", [
+        "reset 7 0 7 0 htp", "login 0 1", "login 1 1",
+        "totp cert1+0:2 1 0", "vipotp cert1+0:2 1", "vipotp cert1+0:2 0", "totp cert1+1:2 1 1",
+        "u2fbegin cert1+0:2", "u2ffinish cert1+0:2 1 u 0", "u2fbegin cert1+0:2", "u2ffinish cert1+1:2 1 u 1",
+        "wabegin cert0+1:2", "wafinish cert0+1:2 0 w 2", "wabegin cert0+1:2", "wafinish cert0+0:2 0 w 3",
+        "pushstart cert1+0:2 3", "approve 0", "poll cert1+0:2 3", "poll cert1+1:2 3",
+        "showtoken cert1+0:66 120", "showtoken cert1+0:2 120", "totp cert1 1 2", "totp cert1+x 1 2",
+        "totp cert0+1:2+0:2 0 2", "totp cert0+0:2+1:2 0 3", "logout cert1+0:2"]),
+    ("client-certificate-bootstrap-and-okta", [
+        "reset 0 3 0 3 okta", "login 0 1", "login 1 1", "bootstrap cert1+0:2 1", "bootstrap cert1+1:2 1",
+        "bootstrap cert0+0:2 0", "oktaotp cert1+0:2 1", "oktapushstart cert1+0:2", "oktaapprove 1",
+        "oktapoll cert1+0:2", "oktapoll cert1+1:2", "oktaotp cert0+0:2 0"]),
     ("two-auth-cookies-in-one-request", [
         "reset 7 0 0 2 htp", "login 0 1", "login 1 1",
         "totp 1:2+0:2 0 0", "vipotp 1:2+0:2 0", "pushstart 1:2+0:2 5", "approve 0", "poll 1:2+0:2 5",
@@ -215,6 +227,16 @@ class Seq:
             f[1] = extra + "+" + f[1] + "+" + self.rng.choice(self.cookies)
         return " ".join(f)
 
+    def with_cert(self, op):
+        """with some probability the request ALSO arrives with a verified keymaster client certificate, of the
+        cookie's user or of the other one (checkAuth prefers the certificate wherever the mask admits it)"""
+        f = op.split()
+        if len(f) < 2 or f[0] in ("login", "approve", "oktaapprove", "tick", "sweep", "fault") or self.rng.random() > 0.09:
+            return op
+        u = self.rng.choice(USERS)
+        f[1] = "cert%d" % u if f[1] == "-" else "cert%d+%s" % (u, f[1])
+        return " ".join(f)
+
     def fault_flow(self):
         """a one-time value is presented while the profile store refuses writes (or reads), then again"""
         rng = self.rng
@@ -331,7 +353,7 @@ class Seq:
                         self.now += 1
                     if op == "fault 0 0":
                         self.fault = False
-                    self.ops.append(self.multi(op))
+                    self.ops.append(self.with_cert(self.multi(op)))
                 continue
             table = [("login", 9), ("vipotp", 4), ("pushstart", 8), ("approve", 7), ("poll", 10), ("totp", 13),
                      ("bootstrap", 6), ("u2fbegin", 6), ("u2ffinish", 9), ("wabegin", 5), ("wafinish", 8),
@@ -403,7 +425,7 @@ class Seq:
                 self.fault = False
             else:
                 op = "sweep"
-            self.ops.append(self.multi(op))
+            self.ops.append(self.with_cert(self.multi(op)))
 
 
 def learn(seq, outs):
